@@ -133,7 +133,7 @@ def run(ctx):
     ctx.cov["trace_events"] = len(events)
     ctx.cov["exhaustive"] = True
     ctx.assumptions += [
-        "a user write whose bytes equal the content recorded in the md5 file (while the file holds something else) is outside the universe: the md5 protocol cannot see it",
+        "a user write whose bytes equal the content recorded in a stale md5 file (possible only after a kill in the md5 window) is part of that window: the history stays tainted and is reported under the known finding",
         "histories are --replace runs only; mixing --no-backup into the chain is outside C14",
         "crash = SIGKILL between two syscalls",
     ]
